@@ -93,4 +93,26 @@ PROPS = {
         real=["tailer.Tailer (AddPattern, Ignore, pollLogPattern, doPatternGlob, TailPath, forwarder/removal)", "logstream.fileStream", "kernel filesystem", "log_count expvar"],
         stub=["waker.Waker (simulated ticks)"],
     ),
+    "C12": dict(
+        level="fault_enumeration",
+        quick=dict(runs=1500),
+        thorough=dict(runs=60000),
+        rule=("each run = one generated store (1-5 metrics of every kind/type, 0-2 keys, 0-4 label sets), one exporter family chosen by seed "
+              "(prometheus, push[collectd+graphite+statsd], varz, graphite-http, json), exporter options (prog label on/off, timestamps on/off), and — "
+              "enumerated completely for that store — every fault position of the family: prometheus: invalid metric name per metric, key named "
+              "prog per keyed metric, non-UTF-8 value at every (metric, label set); push: per target every write k=1..W failing (plain and short "
+              "write), dial failure; HTTP handlers: request cancelled before the call and during write k, ResponseWriter failing from write k; plus "
+              "the fault-free attempt. Every attempt runs on a fresh copy of the store under a seeded schedule of exporter, emitter goroutines and "
+              "probe. evaluations = attempts; non-trivial attempt = one whose fault fired; distinct = those attempts, over distinct (family, store, "
+              "options, schedule) runs. exhaustive refers to fault positions per generated store, the store space is sampled."),
+        assumptions=[
+            "the push connection is a stub net.Conn that fails at the chosen write (deadlines are accepted and ignored)",
+            "HTTP handlers are called directly with a fault-injecting ResponseWriter and a cancellable request context (no real HTTP server)",
+            "'subsequent line processing' is represented by what the VM does on a line: GetDatum (write lock) on every metric, then an update",
+        ],
+        expect_probes=[],
+        real=["exporter.Exporter (Collect via Write and a real prometheus.Registry Gather, PushMetrics, writeSocketMetrics, formatters, HandleVarz, HandleGraphite, HandleJSON, New/Stop)",
+              "metrics.Metric locks (simulated mutex with Go's writer preference)", "EmitLabelSets goroutines", "prometheus client_golang"],
+        stub=["push connection (net.DialTimeout redirected)", "http.ResponseWriter"],
+    ),
 }
